@@ -630,7 +630,11 @@ type ArrayLiteral struct {
 
 func (al ArrayLiteral) PrettyPrint(out *PrintState) *PrintState {
 	out.Print("[")
+	// like call arguments: the brackets delimit the elements, outer operators don't apply inside.
+	oldExpressionPrecedence := out.ExpressionPrecedence
+	out.ExpressionPrecedence = LOWEST
 	out.ComaList(al.Elements)
+	out.ExpressionPrecedence = oldExpressionPrecedence
 	out.Print("]")
 	return out
 }
@@ -647,7 +651,11 @@ func (ie IndexExpression) PrettyPrint(out *PrintState) *PrintState {
 		out.Print("(")
 	}
 	ie.Left.PrettyPrint(out)
-	out.Print(ie.Literal())
+	if ie.Token.Type() == token.DOT && dotNeedsSpaces(ie) {
+		out.Print(" . ") // 1.x or a.5 would be lexed as a float.
+	} else {
+		out.Print(ie.Literal())
+	}
 	out.ExpressionPrecedence = LOWEST
 	ie.Index.PrettyPrint(out)
 	if ie.Token.Type() == token.LBRACKET {
@@ -658,6 +666,16 @@ func (ie IndexExpression) PrettyPrint(out *PrintState) *PrintState {
 	}
 	out.ExpressionPrecedence = oldExpressionPrecedence
 	return out
+}
+
+// A dot next to a number (accepted by the parser even if it can't evaluate) must not be glued to it.
+func dotNeedsSpaces(ie IndexExpression) bool {
+	switch ie.Left.(type) {
+	case *IntegerLiteral, *FloatLiteral:
+		return true
+	}
+	first := firstPrinted(ie.Index, LOWEST)
+	return first != "" && (first[0] == '.' || (first[0] >= '0' && first[0] <= '9'))
 }
 
 type MapLiteral struct {
